@@ -90,6 +90,7 @@ class Extractor:
         self.functions = []   # evidence records
         self.types = []
         self.rewrite_counts = {}
+        self.gwraps = []      # unit-wide optional wraps (applied to every function extracted after the directive)
         self._cache = {}
 
     # ------------------------------------------------------------------ sources
@@ -138,6 +139,10 @@ class Extractor:
                 inc = os.path.join(os.path.dirname(path), d[8:].strip())
                 self._process_file(inc)
                 i += 1
+            elif d.startswith("gwrap "):
+                a, b = d[6:].split("=>")
+                self.gwraps.append((a.strip(), b.strip()))
+                i += 1
             elif d.startswith("fn "):
                 i = self._parse_fn(path, lines, i)
             elif d.startswith("struct "):
@@ -149,6 +154,10 @@ class Extractor:
             elif d.startswith("const "):
                 m = re.match(r"const\s+(\S+)\s+(\w+)$", d)
                 self._emit_const(m.group(1), m.group(2))
+                i += 1
+            elif d.startswith("trait "):
+                m = re.match(r"trait\s+(\S+)\s+(\w+)$", d)
+                self._emit_trait(m.group(1), m.group(2))
                 i += 1
             else:
                 raise ExtractError("%s:%d unknown directive %r" % (path, i + 1, d))
@@ -206,6 +215,11 @@ class Extractor:
             elif d == "spec":
                 blk, i = self._parse_block(lines, i + 1)
                 fs.spec = blk
+            elif d.startswith("specfile "):
+                sp = os.path.join(os.path.dirname(path), d[9:].strip())
+                fs.spec = [(t, k + 1) for k, t in enumerate(open(sp).read().rstrip("\n").split("\n"))]
+                fs.spec_path = sp
+                i += 1
             elif d.startswith("loop "):
                 k = int(d[5:].strip())
                 blk, i = self._parse_block(lines, i + 1)
@@ -282,6 +296,22 @@ class Extractor:
         rec["sha256"] = hashlib.sha256(text.encode()).hexdigest()
         self.types.append(rec)
         self.pieces.append(Piece("#[derive(Clone, Copy, PartialEq, Eq)]\n" if "{" in text and not re.search(r"\(", mtext[mtext.find("{"):]) else "", ("unit", self.unit_path, 0)))
+        self.pieces.append(Piece(text2 + "\n", ("repo", rel, L.line_of(src, loc.start))))
+
+    def _emit_trait(self, rel, name):
+        """trait declaration copied verbatim (method signatures only; provided bodies are kept as they are)"""
+        src, masked = self._load(rel)
+        try:
+            loc = L.find_item(src, masked, "trait", name)
+        except LookupError as e:
+            raise ExtractError("lost anchor: %s" % e)
+        rec = {"kind": "trait", "path": rel, "name": name, "lines": [L.line_of(src, loc.start), L.line_of(src, loc.end - 1)], "rewrites": {}}
+        text = src[loc.start:loc.end]
+        rec["sha256"] = hashlib.sha256(text.encode()).hexdigest()
+        text2 = self._strip_attrs_and_docs(text, masked[loc.start:loc.end], rec)
+        text2 = "pub " + re.sub(r"^pub(\s*\([^)]*\))?\s+", "", text2.lstrip("\n"))
+        self._count(rec, "R7")
+        self.types.append(rec)
         self.pieces.append(Piece(text2 + "\n", ("repo", rel, L.line_of(src, loc.start))))
 
     def _emit_const(self, rel, name):
@@ -478,6 +508,18 @@ class Extractor:
 
         apply(find_maperr, lambda t, m: (self._count(rec, "R2"), ".map_err_stub()")[1])
 
+        # R2 (cont.): `&format!(..)` passed as a description string -> "" (text only)
+        def find_fmt(masked, pos):
+            m = re.compile(r"&\s*format!\s*\(").search(masked, pos)
+            if not m:
+                return None
+            close = L.match_close(masked, m.end() - 1)
+            if not _side_effect_free(masked[m.end():close]):
+                raise ExtractError("R2: format! argument is not side-effect free")
+            return (m.start(), close + 1)
+
+        apply(find_fmt, lambda t, m: (self._count(rec, "R2"), '""')[1])
+
         # R4: assert! / debug_assert!
         def find_assert(masked, pos):
             m = re.compile(r"\b(debug_assert|assert)!\s*\(").search(masked, pos)
@@ -517,16 +559,15 @@ class Extractor:
             if n:
                 text = text.replace(a, b)
                 self._count(rec, "R3", n)
-        for rx, repl in fs.wraps:
+        for rx, repl, optional in [(a, b, False) for a, b in fs.wraps] + [(a, b, True) for a, b in self.gwraps]:
             masked = L.mask_code(text)
             ms = list(re.finditer(rx, masked))
             if not ms:
+                if optional:
+                    continue
                 raise ExtractError("lost anchor: wrap %r not found in %s" % (rx, fs.name))
             for m in reversed(ms):
-                new = m.expand(repl)
-                # the regex ran on masked text; re-expand groups from the real text
-                real = re.match(rx, text[m.start():m.end()] if False else masked[m.start():m.end()])
-                # groups taken from the *real* text at the same offsets
+                # the regex ran on masked text; groups are taken from the *real* text at the same offsets
                 def grp(k, m=m):
                     return text[m.start(k):m.end(k)]
                 new = re.sub(r"\\(\d)", lambda g: grp(int(g.group(1))), repl)
@@ -639,10 +680,11 @@ class Extractor:
                 off = stmt_end(p) if where == "after" else line_start(p)
                 inserts.append((off, blk, False))
                 continue
-            mm = re.match(r"(after|before) stmt (.+?)(?:#(\d+))?$", d)
+            mm = re.match(r"(after|before) stmt (.+?)(?:#(\d+|last))?$", d)
             if mm:
-                where, rx, k = mm.group(1), mm.group(2), int(mm.group(3) or 0)
+                where, rx = mm.group(1), mm.group(2)
                 hits = [x for x in re.finditer(rx, mbody)]
+                k = (len(hits) - 1 if hits else 0) if mm.group(3) == "last" else int(mm.group(3) or 0)
                 if k >= len(hits):
                     raise ExtractError("lost anchor: stmt /%s/#%d in fn %s" % (rx, k, fs.name))
                 p = hits[k].start()
@@ -676,8 +718,12 @@ class Extractor:
         p_fn_marker = ("fnstart", rec)
         self.pieces.append(Piece("", p_fn_marker))
         self.pieces.append(p)
+        assumed = any("external_body" in a for a in fs.attrs)
+        rec["assumed_contract"] = assumed
         for t, ln in fs.spec:
-            self.pieces.append(Piece(t + "\n", ("unit", tpl_path, ln)))
+            if assumed:
+                t = re.sub(r"//\s*@OBL\s+\S+", "// (proved in its own unit)", t)
+            self.pieces.append(Piece(t + "\n", ("unit", getattr(fs, "spec_path", tpl_path), ln)))
         body_line = L.line_of(src, loc.body_open)
         cur = 0
         for off, blk, is_loop in inserts:
